@@ -168,6 +168,9 @@ func newLexEngine(c *Ctx, r *Result) *lexEngine {
 	for i := 0; i < st.NumFields(); i++ {
 		e.fields = append(e.fields, st.Field(i).Name())
 	}
+	// the fields are known by the role they play, not by their names: e.fields[i] is the role of
+	// field i (input, length, start, current, width, err) wherever it can be inferred
+	e.inferFieldRoles(c, st)
 	need := map[string]bool{"current": false, "width": false, "start": false, "err": false, "length": false, "input": false}
 	for _, f := range e.fields {
 		if _, ok := need[f]; ok {
@@ -202,6 +205,154 @@ func newLexEngine(c *Ctx, r *Result) *lexEngine {
 	}
 	e.eofFn = c.W.Fn("jparse.(*lexer).eof")
 	return e
+}
+
+// inferFieldRoles names the lexer's fields by what is done to them: the string is the input; the
+// *Error is err; the int that receives the width result of utf8.DecodeRune* is width; the int
+// that is advanced or rewound by that width is current; the int set to len(input) is length; the
+// remaining int, which receives copies of current, is start.
+func (e *lexEngine) inferFieldRoles(c *Ctx, st *types.Struct) {
+	role := map[int]string{}
+	var ints []int
+	for i := 0; i < st.NumFields(); i++ {
+		t := st.Field(i).Type()
+		switch {
+		case isStringType(t):
+			role[i] = "input"
+		case isSignedInt(t):
+			ints = append(ints, i)
+		default:
+			if p, ok := t.(*types.Pointer); ok && isNamed(p.Elem(), "jparse", "Error") {
+				role[i] = "err"
+			}
+		}
+	}
+	isLexerField := func(v ssa.Value) (int, bool) {
+		fa, ok := v.(*ssa.FieldAddr)
+		if !ok {
+			return 0, false
+		}
+		pt, ok := fa.X.Type().Underlying().(*types.Pointer)
+		if !ok || !types.Identical(pt.Elem(), e.lexerT) {
+			return 0, false
+		}
+		return fa.Field, true
+	}
+	isDecodeWidth := func(v ssa.Value) bool {
+		ex, ok := v.(*ssa.Extract)
+		if !ok || ex.Index != 1 {
+			return false
+		}
+		call, ok := ex.Tuple.(*ssa.Call)
+		return ok && strings.HasPrefix(staticName(call), "unicode/utf8.Decode")
+	}
+	widthField := -1
+	for _, f := range c.G.Funcs {
+		if f.Pkg == nil || f.Pkg.Pkg.Name() != "jparse" {
+			continue
+		}
+		for _, ins := range instrsIn(f) {
+			stt, ok := ins.(*ssa.Store)
+			if !ok {
+				continue
+			}
+			fi, ok := isLexerField(stt.Addr)
+			if !ok {
+				continue
+			}
+			if isDecodeWidth(stt.Val) {
+				widthField = fi
+			}
+			if call, isCall := stt.Val.(*ssa.Call); isCall {
+				if bi, isB := call.Call.Value.(*ssa.Builtin); isB && bi.Name() == "len" {
+					role[fi] = "length"
+				}
+			}
+		}
+	}
+	if widthField >= 0 {
+		role[widthField] = "width"
+	}
+	// current: stored with (load of itself) +/- (decode width or load of the width field)
+	for _, f := range c.G.Funcs {
+		if f.Pkg == nil || f.Pkg.Pkg.Name() != "jparse" {
+			continue
+		}
+		for _, ins := range instrsIn(f) {
+			stt, ok := ins.(*ssa.Store)
+			if !ok {
+				continue
+			}
+			fi, ok := isLexerField(stt.Addr)
+			if !ok || role[fi] != "" {
+				continue
+			}
+			bo, ok := stt.Val.(*ssa.BinOp)
+			if !ok || (bo.Op != token.ADD && bo.Op != token.SUB) {
+				continue
+			}
+			ld, ok := bo.X.(*ssa.UnOp)
+			if !ok || ld.Op != token.MUL {
+				continue
+			}
+			if f2, ok := isLexerField(ld.X); !ok || f2 != fi {
+				continue
+			}
+			w := bo.Y
+			okW := isDecodeWidth(w)
+			if ld2, isLd := w.(*ssa.UnOp); isLd && ld2.Op == token.MUL {
+				if f3, ok := isLexerField(ld2.X); ok && f3 == widthField {
+					okW = true
+				}
+			}
+			if okW {
+				role[fi] = "current"
+			}
+		}
+	}
+	// length may also be set in a composite literal of the lexer value (newLexer returns one)
+	for _, i := range ints {
+		if role[i] == "" {
+			continue
+		}
+	}
+	var rest []int
+	for _, i := range ints {
+		if role[i] == "" {
+			rest = append(rest, i)
+		}
+	}
+	// of the remaining ints, the one never stored outside a constructor literal with len() is length
+	if len(rest) == 2 {
+		// length is only ever read in methods; start is stored in methods
+		stored := map[int]bool{}
+		for _, f := range c.G.Funcs {
+			if f.Pkg == nil || f.Pkg.Pkg.Name() != "jparse" || f.Signature.Recv() == nil {
+				continue
+			}
+			for _, ins := range instrsIn(f) {
+				if stt, ok := ins.(*ssa.Store); ok {
+					if fi, ok := isLexerField(stt.Addr); ok {
+						stored[fi] = true
+					}
+				}
+			}
+		}
+		for _, i := range rest {
+			if stored[i] {
+				role[i] = "start"
+			} else {
+				role[i] = "length"
+			}
+		}
+	} else if len(rest) == 1 {
+		role[rest[0]] = "start"
+	}
+	for i, r := range role {
+		if r != "" {
+			e.fields[i] = r
+		}
+	}
 }
 
 // atoms: one representative rune per cell of the partition induced by all rune constants.
@@ -1026,7 +1177,9 @@ func runLEX(c *Ctx, r *Result, rule string) {
 						if iter > 0 {
 							continue
 						}
-						if o.st.err || (o.ret.kind == avTok && o.ret.eof) {
+						if o.st.err || (o.ret.kind == avTok && o.ret.eof) || a == -1 {
+							// at the end of the input nothing can be consumed: the token returned
+							// there is the end-of-input token (or an error), however it is built
 							continue
 						}
 						if o.st.pos == 0 {
